@@ -12,6 +12,16 @@ ALL = [f"C{i:02d}" for i in range(1, 21)]
 
 # property -> (category, technique, level text, level note, design ref)
 CHECKS = {
+    "C01": ("exploration",
+            "model-based stateful property testing (rapid state machine) + bounded-exhaustive state x operation enumeration against a reference cache model",
+            "The real cache actor is driven by generated sync/update/refilter histories (duplicates, stale, zero, negative and non-numeric versions, empty lists) and compared with a reference map model after every operation through List and Get; the universe named in the property (2 keys x 6 versions x 2 labels x 4 filters) is enumerated completely in the thorough tier: every single next operation from every reachable state. A crash of the cache goroutine kills the worker and is reported as a violation with the operation trace. Exploration: the cache is a sequential actor, so a reference model plus search over histories is the natural deciding method; it is exhaustive only for the stated small universe.",
+            "Uses the add-only hook NewVerifCache (tag verif). The model is relaxed where the statement is silent (duplicate keys in one list, non-numeric versions, stale deletes).",
+            "DESIGN.md section 4, C01"),
+    "C02": ("exploration",
+            "stateful property testing (rapid) + bounded-exhaustive enumeration; oracle = strict event-replay algebra (round trip before + events == after)",
+            "For every generated or enumerated mutation the events returned are replayed with the strict algebra over the content read before the call and must reproduce, by object identity, the content read after it; unchanged content must come with zero events. Independent of C01's model (both sides are read from the real cache).",
+            "Uses the add-only hook NewVerifCache (tag verif); order inside a batch is free as long as sequential replay is well-formed, as the property says.",
+            "DESIGN.md section 4, C02"),
     "C17": ("exploration",
             "property-based testing (rapid, mutation-biased pair generator) + bounded-exhaustive pair enumeration; oracle = forall-object Accept agreement of the real filters",
             "For every generated or enumerated pair of filter terms that the library reports equal (FiltersEqual or Equals) both real filters are evaluated on the whole object universe and must agree; rebuilt comparable terms must compare equal; workload filters must compare equal under permutations of their sources. All ordered pairs of depth<=1 terms over 100+ atoms are enumerated (thorough: including binary And/Or over all atoms), deeper terms are sampled with a generator biased towards near-miss pairs. Exploration: soundness is a universally quantified implication over a finite universe, which search decides directly on that universe and samples beyond it.",
